@@ -167,6 +167,31 @@ def check_one(label, sig, v1_ok, add, stats, use_db=True):
             add('C06|database|raises:%s|%s' % (type(e).__name__,
                                                kind_of(label)), label,
                 {'label': label, 'error': str(e)[:200]})
+    if v1_ok and use_db:
+        # a legacy row: protocol-0 pickle of the version-1 dictionary stored
+        # as text (written here independently of compat.py23)
+        try:
+            import pickle
+            from django.db import connection
+            legacy = pickle.dumps(sig.serialize(sig_version=1),
+                                  protocol=0).decode('latin1')
+            v = Version(signature=ProjectSignature())
+            v.save()
+            with connection.cursor() as cur:
+                cur.execute('UPDATE django_project_version SET signature=%s '
+                            'WHERE id=%s', [legacy, v.pk])
+            back = Version.objects.get(pk=v.pk).signature
+            stats['round_trips'] += 1
+            d1, d2 = Diff(sig, back), Diff(back, sig)
+            if not (d1.is_empty(ignore_apps=False) and
+                    d2.is_empty(ignore_apps=False)):
+                add('C06|v1-pickle-row|diff-not-empty|%s' % kind_of(label),
+                    label, {'label': label, 'diff': str(d1)[:200]})
+            v.delete()
+        except Exception as e:
+            add('C06|v1-pickle-row|raises:%s|%s' % (type(e).__name__,
+                                                    kind_of(label)),
+                label, {'label': label, 'error': str(e)[:200]})
     if v1_ok:
         try:
             v1 = sig.serialize(sig_version=1)
